@@ -17,19 +17,25 @@ def handle (j : Json) : Json :=
   let tr := (jarr j "trace").filterMap Driver.Run.parseEv
   let o : C09Obs := { exit := jnat j "exit", errCyclic := jbool j "errCyclic", errWait := jbool j "errWait",
                       hung := jbool j "hung" }
-  let cyc := cycleTasks inp n tr
-  let s := Driver.Run.simulate inp (init inp) 100000
-  Json.mkObj [
+  -- `cycleTasksFast = cycleTasks`, `monC09On (cycleTasksFast …) = monC09 …`: Proofs/C09Cycle.lean
+  let cyc := cycleTasksFast inp n tr
+  let hasFail := (List.range n).any fun c =>
+    !((inp.calcResFail c).tasks.isEmpty && (inp.calcResFail c).files.isEmpty && (inp.calcResFail c).calcs.isEmpty)
+  let big := jbool j "noSimulate"
+  let s := if big then init inp else Driver.Run.simulate inp (init inp) 100000
+  Json.mkObj ([
     ("monitor", Json.mkObj [
       ("C09_terminates", Json.bool (monC09Terminates o)),
-      ("C09_cycle_diagnosed", Json.bool (monC09Diagnosed inp n tr o)),
-      ("C09_no_cycle_task_run", Json.bool (monC09NoCycleTaskRun inp n tr)),
-      ("C09_no_false_cycle", Json.bool (monC09NoFalseCycle inp n tr o))]),
-    ("all", Json.bool (monC09 inp n tr o)),
+      ("C09_cycle_diagnosed", Json.bool (monC09DiagnosedOn cyc inp tr o)),
+      ("C09_no_cycle_task_run", Json.bool (monC09NoCycleTaskRunOn cyc tr)),
+      ("C09_no_false_cycle", Json.bool (monC09NoFalseCycleOn cyc o))]),
+    ("all", Json.bool (monC09On cyc inp tr o)),
     ("cycle", ofNats cyc),
-    ("closure", ofNats (closureOf inp n tr)),
-    ("cutShort", Json.bool (cutShort inp tr)),
+    ("cutShort", Json.bool (cutShort inp tr))] ++
+    (if hasFail then [("cycleGood", ofNats (cycleTasksGood inp n tr))] else []) ++
+    (if big then [] else [
+    ("closure", ofNats (closureC09 inp n tr)),
     ("model", Json.mkObj [("halted", Json.bool (s.rpc = .halted)), ("halt", Json.str (haltStr s.halt)),
-                          ("exit", toJson (exitCode s))])]
+                          ("exit", toJson (exitCode s))])]))
 
 end Driver.P09
